@@ -813,20 +813,43 @@ def H2(F, rep, R, FL):
            'close() [write]: after both joins and the restore-point pass, fileSize := tellp(), uncompressedFileSize / objectCount := the running counters, '
            'then seekp(0), fileStatistics.write, close (%d paths)' % n if bad is None and n > 0 else
            'close() [write]: %s' % ((bad[0] + ': ' + fmt_events(bad[1], limit=24)) if bad else 'no completing path'), nontrivial=True)
-    # open(): statisticsSize added once per mode branch
+    # open(): statisticsSize added once per mode branch; a call that opens nothing (the File is open already) leaves the counters alone
     rep.count('H2')
-    okb = True
+    why = None
     nb = 0
+    COUNTERS = ('currentUncompressedFileSize', 'currentObjectCount')
+
+    def _is_zero(n_):
+        r_ = n_.get('rhs') if n_.get('k') == 'Bin' else (n_['args'][1] if len(n_.get('args', [])) == 2 else None)
+        return r_ is not None and n_.get('op') == '=' and any(x.get('v') == 0 for x in walk(r_)) and not any(x.get('k') == 'Member' for x in walk(r_))
+
     for evs, out in FL.paths(R.open_fn, follow=()):
         m = [R._mode_of_cond(e['n']) for e in evs if e['ev'] == 'branch' and e['taken'] and R._mode_of_cond(e['n'])]
-        if not m or out not in ('normal', 'return'):
-            continue
-        nb += 1
-        bumps = [e for e in evs if e['ev'] == 'assign' and _assign_target(e['n']) == 'currentUncompressedFileSize']
-        if len(bumps) != 1 or not any(x.get('name') == 'statisticsSize' for x in walk(bumps[0]['n'])):
-            okb = False
-    rep.ob('H2', 'open|statisticsSize', okb and nb > 0, rep.fn_site(R.open_fn),
-           'open(): currentUncompressedFileSize += fileStatistics.statisticsSize exactly once on each of the %d starting paths' % nb, nontrivial=True)
+        asg = [e for e in evs if e['ev'] == 'assign' and _assign_target(e['n']) in COUNTERS]
+        if m and out in ('normal', 'return'):
+            nb += 1
+            seq = [e for e in asg if _assign_target(e['n']) == 'currentUncompressedFileSize']
+            resets = [e for e in seq if _is_zero(e['n'])]
+            bumps = [e for e in seq if not _is_zero(e['n'])]
+            if len(bumps) != 1 or not any(x.get('name') == 'statisticsSize' for x in walk(bumps[0]['n'])) or \
+                    any(seq.index(r_) > seq.index(bumps[0]) for r_ in resets):
+                why = 'the running uncompressed size is not started with exactly one += fileStatistics.statisticsSize on a path that opens a file (%s)' % fmt_events(evs, limit=14)
+        elif not m:
+            already = []
+            for e in evs:
+                if e['ev'] != 'branch':
+                    continue
+                calls = [x for x in walk(e['n']) if x.get('k') == 'Call' and x.get('fn') == 'is_open' and
+                         (x.get('obj') is None or (strip_all_casts(x['obj']) or {}).get('k') == 'This')]
+                if calls and _polarity(e['n'], calls[0]) is not None and _polarity(e['n'], calls[0]) == bool(e['taken']):
+                    already.append(e)
+            if already and asg:
+                why = ('open() on a File that is already open returns without opening anything, but changes the running counter %s on the way (line %s): '
+                       'the statistics of the session in progress are lost' % (_assign_target(asg[0]['n']), asg[0].get('l')))
+    okb = why is None and nb > 0
+    rep.ob('H2', 'open|statisticsSize', okb, rep.fn_site(R.open_fn),
+           'open(): currentUncompressedFileSize += fileStatistics.statisticsSize exactly once on each of the %d starting paths; the already-open path '
+           'leaves the counters alone' % nb if okb else 'open(): %s' % (why or 'no path opens a file'), nontrivial=True)
 
 
 def H3(F, rep):
@@ -853,6 +876,43 @@ def H3(F, rep):
     rep.ob('H3', 'fileStatistics|owned-fields', not bad, None,
            'File assigns only fileStatistics.{%s}; all other header fields keep what the caller supplied' % ', '.join(sorted(own)) if not bad else
            'caller-supplied header fields are overwritten: ' + '; '.join(bad), nontrivial=True)
+
+
+def H4(F, rep):
+    """a running counter is at least as wide as the header field it is stored into (and than what is added to it per step): a
+    narrower accumulator wraps for long logs while every shorter one behaves identically"""
+    frec = F.rec(FILE)
+    srec = F.rec('Vector::BLF::FileStatistics')
+    fw = {}
+    for f in frec['fields']:
+        if f.get('kind') == 'int':
+            fw[f['name']] = (f['size'], f['t'])
+        elif isinstance(f.get('elem'), dict) and f['elem'].get('kind') == 'int':
+            fw[f['name']] = (f['elem']['size'], f['t'])
+    sw = {f['name']: (f['size'], f['t']) for f in srec['fields'] if f.get('kind') == 'int'}
+    seen = 0
+    for fn in methods_of(F, FILE):
+        for n in walk(fn['body']):
+            t = None
+            rhs = None
+            if n.get('k') == 'Bin' and n.get('op') == '=':
+                t, rhs = _stat_target(n), n['rhs']
+            elif n.get('k') == 'Call' and n.get('ck') == 'operator' and n.get('op') == '=' and len(n.get('args', [])) == 2:
+                t, rhs = _stat_target(n), n['args'][1]
+            if not t or t not in sw:
+                continue
+            srcs = sorted({x.get('name') for x in walk(deep_resolve(rhs, fn)) if x.get('k') == 'Member' and x.get('name') in fw and
+                           isinstance(strip_all_casts(x.get('base')), dict) and strip_all_casts(x.get('base')).get('k') == 'This'})
+            for sname in srcs:
+                seen += 1
+                rep.count('H4')
+                ok = fw[sname][0] >= sw[t][0]
+                rep.ob('H4', 'width|%s<-%s' % (t, sname), ok, rep.fn_site(fn, n.get('l')),
+                       'fileStatistics.%s (%d bytes) is taken from %s (%s, %d bytes)' % (t, sw[t][0], sname, fw[sname][1], fw[sname][0]) if ok else
+                       'fileStatistics.%s (%d bytes) is taken from the running counter %s, which is only %d bytes wide (%s): the total wraps for logs '
+                       'beyond 2^%d while every shorter log is unaffected' % (t, sw[t][0], sname, fw[sname][0], fw[sname][1], 8 * fw[sname][0]), nontrivial=True)
+    if seen < 2:
+        raise AnalysisBroken('H4: expected the two running counters to be stored into the header, found %d such assignments' % seen)
 
 
 def _stat_target(n):
@@ -1531,8 +1591,7 @@ def R1(F, rep):
             rep.ob('R1', '%s|%s' % (short(fn['name']), 'read' if is_read else 'write'), not problems, rep.fn_site(fn, lp['l']),
                    '%s: position, caller pointer, remaining count%s all advance by the number of bytes copied' % (short(fn['name']), ' and get count' if is_read else '')
                    if not problems else '%s: %s' % (short(fn['name']), '; '.join(problems)), nontrivial=True)
-    if found < 2:
-        raise AnalysisBroken('R1: expected the two copy loops of UncompressedFile, found %d' % found)
+    # (fewer than two copy loops is left to the floor of R1 in rules/floors.json: R4 may have something more useful to say)
 
 
 def R2(F, rep, FL):
@@ -1572,6 +1631,127 @@ def R2(F, rep, FL):
     rep.ob('R2', 'write|end-follows-put', ok, rep.fn_site(wr[0]) if wr else None,
            'UncompressedFile::write moves the declared end along with the put position once writes pass it' if ok else
            'UncompressedFile::write does not keep the declared end at or behind the put position', nontrivial=True)
+
+
+# ---------------------------------------------------------------------- R4: a partial step is completed
+def R4(F, rep):
+    """an advance of the get/put position by min(request, room in the current container) is a partial step: it is only legal inside
+    a loop that keeps going until the request is used up (the request is reduced by the same amount in the loop), or when the
+    remainder (request - step) is passed on afterwards - otherwise the part of the request that does not fit into the current container
+    is silently dropped and every later byte shifts"""
+    cls = 'Vector::BLF::UncompressedFile'
+    found = 0
+    for fn in methods_of(F, cls):
+        parms = {p_['name'] for p_ in fn.get('params', []) if p_.get('name')}
+        loops = [n for n in walk(fn['body'], into_lambda=False) if n.get('k') in ('While', 'For', 'Do')]
+        for n in walk(fn['body'], into_lambda=False):
+            tgt = rhs = None
+            if n.get('k') == 'Bin' and n.get('op') == '+=':
+                tgt, rhs = n['lhs'], n['rhs']
+            elif n.get('k') == 'Call' and n.get('ck') == 'operator' and n.get('op') == '+=' and len(n.get('args', [])) == 2:
+                tgt, rhs = n['args'][0], n['args'][1]
+            if tgt is None or mname(tgt) not in ('m_tellp', 'm_tellg'):
+                continue
+            step = _norm(expr_str(deep_resolve(rhs, fn)))
+            if not step.startswith('min('):
+                continue
+            found += 1
+            rep.count('R4')
+            reqs = [p_ for p_ in parms if step.startswith('min(%s, ' % p_) or step.endswith(', %s)' % p_)]
+            problem = None
+            if not reqs:
+                problem = 'the step %s is not bounded by the request' % step
+            else:
+                req = reqs[0]
+                inloop = [lp for lp in loops if any(x is n for x in walk(lp['body']))]
+                if inloop:
+                    lp = inloop[-1]
+                    dec = []
+                    for x in walk(lp['body']):
+                        t2 = r2 = None
+                        if x.get('k') == 'Bin' and x.get('op') == '-=':
+                            t2, r2 = x['lhs'], x['rhs']
+                        elif x.get('k') == 'Call' and x.get('ck') == 'operator' and x.get('op') == '-=' and len(x.get('args', [])) == 2:
+                            t2, r2 = x['args'][0], x['args'][1]
+                        if t2 is not None and (strip_all_casts(t2) or {}).get('name') == req:
+                            dec.append(_norm(expr_str(deep_resolve(r2, fn))))
+                    cond = _norm(expr_str(lp.get('cond'))) if lp.get('cond') is not None else ''
+                    if step not in dec:
+                        problem = 'the loop around the step does not reduce the request %s by the step (%s)' % (req, dec or 'no decrement')
+                    elif req not in cond:
+                        problem = 'the loop around the step does not run on the remaining request (condition [%s])' % cond
+                else:
+                    later = [x for x in walk(fn['body'], into_lambda=False) if x.get('k') == 'Call' and x.get('l', 0) >= n.get('l', 0) and
+                             any(('(%s - ' % req) in _norm(expr_str(deep_resolve(a_, fn))) for a_ in x.get('args', []))]
+                    if not later:
+                        problem = ('%s advances by %s once, outside any loop: when the request does not fit into the current container the rest of it is '
+                                   'dropped and every later byte shifts' % (mname(tgt), step))
+            rep.ob('R4', '%s|%s' % (short(fn['name']) + ('/container' if 'shared_ptr' in fn['sig'] else ''), mname(tgt)), problem is None, rep.fn_site(fn, n.get('l')),
+                   '%s: the partial step %s is repeated until the request is used up' % (short(fn['name']), step) if problem is None else
+                   '%s: %s' % (short(fn['name']), problem), nontrivial=True)
+    if found < 2:
+        raise AnalysisBroken('R4: expected the partial steps of UncompressedFile::read and ::write, found %d' % found)
+
+
+# ---------------------------------------------------------------------- R5: the put position moves only over stored bytes
+def R5(F, rep):
+    """the put position of the stream is advanced only (a) by the number of bytes a std::copy has just stored in a container, in the same
+    loop body, (a') by a step bounded by the room left in the container that holds the put position, or (b) by the size of the container that the same function appends to the list.  Any other advance moves the position over
+    bytes no container holds: a later write then starts a container with a hole in front of it, the reader finds no container at the get
+    position, returns nothing and stays 'good'."""
+    cls = 'Vector::BLF::UncompressedFile'
+    found = 0
+    for fn in methods_of(F, cls):
+        if fn.get('kind') in ('ctor', 'dtor'):
+            continue
+        loops = [n for n in walk(fn['body'], into_lambda=False) if n.get('k') in ('While', 'For', 'Do')]
+        for n in walk(fn['body'], into_lambda=False):
+            tgt = rhs = op = None
+            if n.get('k') == 'Bin' and n.get('op') in ('+=', '=', '-='):
+                tgt, rhs, op = n['lhs'], n['rhs'], n['op']
+            elif n.get('k') == 'Call' and n.get('ck') == 'operator' and n.get('op') in ('+=', '=', '-=') and len(n.get('args', [])) == 2:
+                tgt, rhs, op = n['args'][0], n['args'][1], n['op']
+            elif n.get('k') == 'Un' and n.get('op') in ('++', '--'):
+                tgt, rhs, op = n['sub'], None, n['op']
+            if tgt is None or mname(tgt) != 'm_tellp':
+                continue
+            found += 1
+            rep.count('R5')
+            problem = None
+            step = _norm(expr_str(deep_resolve(rhs, fn))) if rhs is not None else None
+            if op != '+=':
+                problem = 'm_tellp is changed by %s' % op
+            else:
+                inloop = [lp for lp in loops if any(x is n for x in walk(lp['body']))]
+                # (a') a step bounded by the room left in the container that holds the put position stays inside bytes that exist
+                # (containers are created zero-filled); whether the rest of the request is completed is R4's question
+                room = '(uncompressedFileSize - (m_tellp - filePosition))'
+                ok = bool(step) and step.startswith('min(') and (step.endswith(', ' + room + ')') or step.startswith('min(' + room + ', ')) and \
+                    any(x.get('k') == 'Call' and x.get('fn') == 'logContainerContaining' and _norm(expr_str(deep_resolve(x['args'][0], fn))) == 'm_tellp'
+                        for x in walk(fn['body'], into_lambda=False))
+                if inloop and not ok:
+                    for c in walk(inloop[-1]['body']):
+                        if c.get('k') == 'Call' and (c.get('callee') or '').startswith('std::copy') and len(c.get('args', [])) == 3:
+                            a = [_norm(expr_str(deep_resolve(a_, fn))) for a_ in c['args']]
+                            if a[1] == '(%s + %s)' % (a[0], step) and 'uncompressedFile.begin()' in a[2]:
+                                ok = True
+                if not ok:
+                    # (b) the size of the container appended by this function
+                    pushes = [x for x in walk(fn['body'], into_lambda=False) if x.get('k') == 'Call' and x.get('fn') in ('push_back', 'emplace_back') and
+                              (member_path(x.get('obj')) or (None,))[-1] == 'm_data']
+                    if pushes and step == 'uncompressedFileSize':
+                        pushed = local_id(pushes[0]['args'][0]) if pushes[0].get('args') else None
+                        r_ = deep_resolve(rhs, fn)
+                        mem = [x for x in walk(r_) if x.get('k') == 'Member' and x.get('name') == 'uncompressedFileSize']
+                        ok = bool(mem) and pushed is not None and _ptr_root(mem[0]) == pushed
+                if not ok:
+                    problem = ('m_tellp += %s is neither the count of a std::copy into a container in the same loop nor the size of a container this '
+                               'function appends: the put position moves over bytes no container holds' % step)
+            rep.ob('R5', '%s|m_tellp@%s' % (short(fn['name']) + ('/container' if 'shared_ptr' in fn['sig'] else ''), found), problem is None, rep.fn_site(fn, n.get('l')),
+                   '%s: the put position advances by bytes that were just stored (%s)' % (short(fn['name']), step) if problem is None else
+                   '%s: %s' % (short(fn['name']), problem), nontrivial=True)
+    if found < 2:
+        raise AnalysisBroken('R5: expected the two advances of m_tellp in UncompressedFile, found %d' % found)
 
 
 # ---------------------------------------------------------------------- R3: appended containers never overlap the tail
@@ -1966,6 +2146,84 @@ def K11(F, rep, R, FL):
         rep.ob('K11', short(q), not bad, rep.fn_site(F.fn(q)),
                '%s: no control decision of the worker depends on a position/size snapshot of a shared stage' % short(q) if not bad else
                '%s: %s - the decision races with the other thread, results depend on the interleaving' % (short(q), '; '.join(bad[:3])), nontrivial=True)
+
+
+def K12(F, rep, R, FL):
+    """a write session is drained, never cut short: the members a write-mode worker's loop tests (its running flag) are changed by
+    nobody but that worker before it is joined - a worker told to stop by close() leaves buffered objects unwritten whenever it is still
+    busy, i.e. the produced file depends on how far the worker got"""
+    close = R.close_fn
+    n_threads = 0
+    for q, t in sorted(R.threads.items()):
+        if t['mode'] != 'write':
+            continue
+        n_threads += 1
+        rep.count('K12')
+        entry = F.fn(q)
+        flags = set()
+        for n in walk(entry['body'], into_lambda=False):
+            if n.get('k') in ('While', 'Do', 'For') and n.get('cond') is not None:
+                for x in walk(deep_resolve(n['cond'], entry)):
+                    if x.get('k') == 'Member' and x.get('dk') == 'field' and F.field(FILE, x.get('name')) is not None:
+                        b = strip_all_casts(x.get('base'))
+                        if isinstance(b, dict) and b.get('k') in ('Ref', 'This'):
+                            flags.add(x['name'])
+        bad = None
+        npaths = 0
+        for evs, out in FL.paths(close, follow=()):
+            taken = [R._mode_of_cond(e['n']) for e in evs if e['ev'] == 'branch' and e['taken'] and R._mode_of_cond(e['n'])]
+            if taken != ['write']:
+                continue
+            npaths += 1
+            j = [i for i, e in enumerate(evs) if e['ev'] == 'call' and e['n'].get('callee') == 'std::thread::join' and recv_root(e['n']) == t['member']]
+            upto = j[0] if j else len(evs)
+            for e in evs[:upto]:
+                if e['ev'] == 'assign' and _assign_target(e['n']) in flags:
+                    bad = 'close() [write] changes %s (line %s) before %s is joined' % (_assign_target(e['n']), e.get('l'), t['member'])
+                    break
+            if bad:
+                break
+        rep.ob('K12', short(q), bad is None and npaths > 0 and bool(flags), rep.fn_site(close),
+               '%s runs until its input is exhausted: close() [write] leaves %s alone until the join (%d paths)' % (short(q), '/'.join(sorted(flags)), npaths)
+               if bad is None and npaths > 0 and flags else
+               '%s: %s - a worker that is still busy stops with data pending; what reaches the file depends on the interleaving' %
+               (short(q), bad or ('no loop flag found' if not flags else 'no write-mode path through close()')), nontrivial=True)
+    if n_threads < 2:
+        raise AnalysisBroken('K12: expected two write-mode worker threads, found %d' % n_threads)
+
+
+def E5(F, rep, R):
+    """the read pipeline takes no decision on the totals in the file header (fileStatistics.fileSize / uncompressedFileSize / objectCount /
+    restorePointsOffset): a logger that crashed, or is still writing, leaves them zero or stale, and a loop that stops 'at the declared
+    size' then stops after the first container although the data goes on"""
+    TOTALS = {'fileSize', 'uncompressedFileSize', 'objectCount', 'restorePointsOffset', 'objectsRead'}
+    n_fn = 0
+    for q, t in sorted(R.threads.items()):
+        if t['mode'] != 'read':
+            continue
+        role = 'T:' + q.split('::')[-1]
+        fns = {q}
+        for c in R.calls:
+            if c['role'] == role:
+                fns |= {x for x in c['chain'] if x.startswith(FILE + '::')}
+        rep.count('E5')
+        bad = []
+        for name in sorted(fns):
+            for fn in F.functions.get(name, []):
+                n_fn += 1
+                for n in walk(fn['body'], into_lambda=False):
+                    conds = [n.get('cond')] if n.get('k') in ('If', 'While', 'Do', 'For', 'Cond', 'Switch') else []
+                    for c in conds:
+                        for x in walk(deep_resolve(c, fn) if c is not None else {}):
+                            p_ = member_path(x) if x.get('k') == 'Member' else None
+                            if p_ and len(p_) >= 2 and 'fileStatistics' in p_[:-1] and p_[-1] in TOTALS:
+                                bad.append('%s line %s tests fileStatistics.%s' % (short(name), n.get('l'), p_[-1]))
+        rep.ob('E5', short(q), not bad, rep.fn_site(F.fn(q)),
+               '%s: no decision of the read worker depends on the totals in the file header' % short(q) if not bad else
+               '%s: %s - with the initial (all-zero) or a stale header the worker stops although complete containers follow' % (short(q), '; '.join(bad[:3])),
+               nontrivial=True)
+    if n_fn < 4:
+        raise AnalysisBroken('E5: expected the two read workers and their transfer functions, found %d functions' % n_fn)
 
 
 def G1(F, rep):
